@@ -7,7 +7,8 @@ def check(ctx):
         "MIR rules (config E): R1 SpanInner::push_child_spans submits the same Arc as SpanSet::SharedLocalSpans under a "
         "token issued by the receiving span and returns early only for an empty set; R2 to_span_records and every "
         "local-span arm of postprocess_span_collection convert with the same amend_local_span followed by the same "
-        "mount_danglings, with (trace, parent) = (context.trace_id, context.span_id) resp. the collection's pair; R3 an "
+        "mount_danglings, with (trace, parent) = (context.trace_id, context.span_id) resp. the collection's pair, and mount_danglings is handed only the records this collection has just produced (copies of "
+        "one set in N traces carry the same span ids: a look-up over the whole batch gives the first copy everything); R3 an "
         "open span's end is LocalSpansInner.end_time exactly on the end_instant == Instant::ZERO edge, and end_time is "
         "Instant::now() taken after the scope is unregistered; R4 no Arc::get_mut/make_mut on the shared forest and no "
         "interior mutability in RawSpan / LocalSpansInner.")
@@ -20,5 +21,6 @@ def check(ctx):
     if c.need("R2"):
         collector.rule_stale_isolated(ctx, c, "R2")
         collector.rule_danglings_arg(ctx, c, "R2")
+    provrules.rule_mount_scope(ctx, facts, "R2")
     provrules.rule_open_spans(ctx, facts, "R3")
     provrules.rule_forest_immutable(ctx, facts, "R4")
